@@ -6,7 +6,7 @@
    fuel of the model always suffices, the parallel main loop never blocks for ever) is NOT proved:
    it is covered by the correspondence (all digraphs <= 3 tasks x all runners, sampled beyond) and by
    the oracle on implementation runs (exact hang detection by the deterministic scheduler). *)
-From DoitV Require Import Base Dispatch Runner DispatchP DispatchInv RunnerTr RunnerP CycleP AncP HoldP TermP.
+From DoitV Require Import Base Dispatch Runner Parallel DispatchP DispatchInv RunnerTr RunnerP ParallelP CycleP AncP HoldP HoldG CompleteP ParHoldP TermP.
 Open Scope N_scope.
 
 (* a task lying on a dependency cycle through task_dep (explicit, wild-card, implicit file
@@ -180,3 +180,47 @@ Proof.
     repeat (destruct p as [p|p|]; try reflexivity; try (exfalso; apply Hk; simpl; tauto)). }
   split; vm_compute; reflexivity.
 Qed.
+
+(* the parallel runners (MRunner with processes: proc = true; MThreadRunner: proc = false), every number of
+   workers, EVERY schedule: neither diagnostic is a false alarm.  When run_tasks raises "tasks waiting for each
+   other" -- free_proc >= proc_count right after the start-up loop or after a result was handled -- the task
+   graph has a cycle through effective dependencies.  (Proofs/HoldG.v: the wait-graph invariant of HoldP.v
+   relative to the set of tasks IN FLIGHT -- queued jobs, tasks a worker executes, results / interrupt notices
+   not dequeued yet: such a task is unfinished but neither ready, waiting nor current once its generator was
+   resumed.  Proofs/ParHoldP.v: counting invariant proc_count = free_proc + |in flight| + slots still to fill,
+   so the deadlock test implies nothing is in flight; a slot is on hold only if the dispatcher is in a hold
+   state (nothing current/ready/new, somebody waiting), which persists while nothing completes.) *)
+Theorem C09_hold_error_never_false_parallel :
+  forall tasks wake_rank calc_rank continue_ always proc fuel nprocs sched selection,
+    In (PE EHoldError) (fst (run_parallel tasks wake_rank calc_rank continue_ always proc fuel nprocs sched selection)) ->
+    exists k, reach tasks k k.
+Proof. exact parallel_hold_error_is_real. Qed.
+Print Assumptions C09_hold_error_never_false_parallel.
+
+Theorem C09_cycle_error_never_false_parallel :
+  forall tasks wake_rank calc_rank continue_ always proc fuel nprocs sched selection p,
+    In (PE (ECycleError p)) (fst (run_parallel tasks wake_rank calc_rank continue_ always proc fuel nprocs sched selection)) ->
+    exists k, reach tasks k k.
+Proof. exact parallel_cycle_error_is_real. Qed.
+Print Assumptions C09_cycle_error_never_false_parallel.
+
+Theorem C09_acyclic_never_diagnosed_parallel :
+  forall tasks wake_rank calc_rank continue_ always proc fuel nprocs sched selection,
+    (forall k, ~ reach tasks k k) ->
+    let log := fst (run_parallel tasks wake_rank calc_rank continue_ always proc fuel nprocs sched selection) in
+    ~ In (PE EHoldError) log /\ forall p, ~ In (PE (ECycleError p)) log.
+Proof. exact parallel_acyclic_no_diagnostic. Qed.
+Print Assumptions C09_acyclic_never_diagnosed_parallel.
+
+(* non-vacuity: the same cyclic table as C09_nonvacuous; an independent task (3) is executed by a worker first,
+   then the hold-on diagnostic fires (thread flavour, 2 workers); a cycle on one ancestor chain gives the other *)
+Definition ex09c (n : name) : option task :=
+  match n with
+  | 0 => Some (Build_task [1] [] [] false false CkRun false OOk [] [] [])
+  | 1 => Some (Build_task [0] [] [] false false CkRun false OOk [] [] [])
+  | _ => None end.
+Example C09_parallel_nonvacuous :
+  run_parallel ex09 (fun _ _ => 0) (fun _ => 0) false false false 100 2 [1;0;1;1;0;0;1]%nat [3; 0] =
+    ([PE (EGetStatus 3); PE (EExecute 3); PStart 3 1; PEnd 3 1; PE (ESave 3); PE (ESuccess 3); PE EClose; PE EHoldError], 3) /\
+  run_parallel ex09c (fun _ _ => 0) (fun _ => 0) false false true 100 2 []%nat [0] = ([PE EClose; PE (ECycleError [0; 1; 0])], 3).
+Proof. split; vm_compute; reflexivity. Qed.
